@@ -729,3 +729,8 @@ B("C12", NW, "            [p.at[1:].add(self._cumsum_nbranches[i]) for i, p in e
 # global_branch_index as a nested comprehension
 _OLD_GB = '        self.nodes["global_branch_index"] = np.repeat(\n            np.arange(self.total_nbranches), self.ncomp_per_branch\n        ).tolist()'
 P("C12", CELL, _OLD_GB, '        self.nodes["global_branch_index"] = [\n            b for b, n in enumerate(self.ncomp_per_branch) for _ in range(n)\n        ]')
+# the area conversion written as one expression (the helper becomes value-only and would be inlined)
+_OLD_AR = "    area = 2 * pi * radius * length\n    current /= area  # nA / um^2\n    return current * 100_000  # Convert (nA / um^2) to (uA / cm^2)"
+for _p in ("C09", "C08", "C02", "C15"):
+    P(_p, CU, _OLD_AR, "    return 1e5 * current / (2.0 * pi * radius * length)")
+B("C09", CU, _OLD_AR, "    return 1e4 * current / (2.0 * pi * radius * length)", "R-C09-area")
